@@ -131,3 +131,9 @@ pub fn spontaneous_drop() -> bool { SPONTANEOUS.with(|c| { let n = c.get(); c.se
 thread_local! { static VECTORED_SRC: std::cell::Cell<bool> = const { std::cell::Cell::new(false) }; }
 pub fn set_vectored_src(b: bool) { VECTORED_SRC.with(|c| c.set(b)) }
 pub fn vectored_src() -> bool { VECTORED_SRC.with(|c| c.get()) }
+
+thread_local! { static LIMIT_MOVES: std::cell::Cell<bool> = const { std::cell::Cell::new(false) }; static LIMIT_BELOW: std::cell::Cell<bool> = const { std::cell::Cell::new(false) }; }
+pub fn set_limit_moves(b: bool) { LIMIT_MOVES.with(|c| c.set(b)) }
+pub fn limit_moves() -> bool { LIMIT_MOVES.with(|c| c.get()) }
+pub fn count_limit_move(below_inflight: bool) { if below_inflight { LIMIT_BELOW.with(|c| c.set(true)) } }
+pub fn take_limit_below_inflight() -> bool { LIMIT_BELOW.with(|c| c.replace(false)) }
